@@ -299,9 +299,20 @@ package chain
 //@   ensures [minimal] result.Height == 0 || !(best[result.Height - 1] in body)
 //
 // Assumed here, proved with C13/C05: these helpers never touch the pool.
-//@ func (*Manager).checkTxnSet
+// ... and report a set as known exactly when every one of its transactions is indexed in the pool
+//@ func checkEphemeralOutputs
+//@   assigns nothing
+//@ func checkFileContractRevisions
+//@   assigns nothing
+//@ func (*Manager).checkTxnSet props C14
 //@   assigns heap:consensus.MidState
-//@   requires m != nil
+//@   frame assumed
+//@   requires m != nil && m.store != nil && m.txpool.indices != nil
+//@   loop "range txns"
+//@     invariant [all-so-far] m == old(m) && m.txpool.indices == old(m.txpool.indices) && snapshot(m.txpool.indices) == old(snapshot(m.txpool.indices)) && (allInPool <==> (forall k int :: { txns[k] } 0 <= k && k <= rangeindex ==> (txns[k].ID() in m.txpool.indices)))
+//@   loop "range v2txns"
+//@     invariant [all-so-far] m == old(m) && m.txpool.indices == old(m.txpool.indices) && snapshot(m.txpool.indices) == old(snapshot(m.txpool.indices)) && (allInPool <==> ((forall k int :: { txns[k] } 0 <= k && k < len(txns) ==> (txns[k].ID() in m.txpool.indices)) && (forall k int :: { v2txns[k] } 0 <= k && k <= rangeindex ==> (v2txns[k].ID() in m.txpool.indices))))
+//@   ensures [known-iff-all-pooled] result1 == nil ==> (result0 <==> ((forall k int :: { txns[k] } 0 <= k && k < len(txns) ==> (txns[k].ID() in m.txpool.indices)) && (forall k int :: { v2txns[k] } 0 <= k && k < len(v2txns) ==> (v2txns[k].ID() in m.txpool.indices))))
 // Proof updates are bounded by the accumulator size of the state the update leads to: the parent
 // state when a block is reverted, the new state when a block is applied. An element with a leaf
 // index beyond that is rejected by updateTxnProofs instead of reaching UpdateElementProof (which
